@@ -190,3 +190,39 @@ def attach_insertions(g, facets, transforms, which=("rows", "cols"), placement=N
                 g, valid_ids, missing_ids, **kw)
         done.append("%s:%s" % (name, pl))
     return done
+
+
+def add_total_subtotals(facets, transforms, which=("rows", "cols")):
+    """Append a subtotal of *all* valid categories to the rows / columns insertions.
+
+    Its proportion in its own direction is exactly 1 and its variance exactly 0: the place
+    where sums taken in different orders show their last-bit differences.
+    """
+    lf = library_order_facets(facets)
+    nd = len(lf)
+    targets = {"rows": lf[0]} if nd == 1 else {"rows": lf[nd - 2], "cols": lf[nd - 1]}
+    done = []
+    for name in which:
+        if name not in targets:
+            continue
+        role, var = targets[name]
+        if not insertable(role, var):
+            continue
+        cats = var.cats if role == "ca_cats" else var.axis_cats
+        valid_ids = [c["id"] for c in cats if not c.get("missing")]
+        if not valid_ids:
+            continue
+        key = "rows_dimension" if name == "rows" else "columns_dimension"
+        dd = transforms.setdefault(key, {})
+        cur = list(dd.get("insertions") or (var.view_insertions or []))
+        cur.append({"function": "subtotal", "name": "everyone", "anchor": "bottom",
+                    "args": list(valid_ids), "id": 77})
+        dd["insertions"] = cur
+        done.append(name)
+    return done
+
+
+def weights_exact(spec):
+    """True when every weight is a multiple of 1/8 (sums are exact in binary floating point)."""
+    w = spec.weight
+    return w is None or not bool(np.any((np.asarray(w, dtype=float) * 8) % 1 != 0))
